@@ -401,6 +401,16 @@ class Interp:
             ev(name, idx, 'tset_begin', (st['i'], self.tracked[st['i']].value + st['v']))
             await (self.tracked[st['i']] + st['v'])
             ev(name, idx, 'ok')
+        elif op == 'top':
+            # every operator of a tracked value (`await (tracked * 2)`, `await (tracked ** 2)`, ...) sets the new value
+            import operator as _o
+            fn = {'+': _o.add, '-': _o.sub, '*': _o.mul, '//': _o.floordiv, '%': _o.mod, '**': _o.pow, '<<': _o.lshift,
+                  '>>': _o.rshift, '&': _o.and_, '|': _o.or_, '^': _o.xor, '/': _o.truediv}[st['o']]
+            tr = self.tracked[st['i']]
+            new = fn(tr.value, st['v'])
+            ev(name, idx, 'tset_begin', (st['i'], new))
+            await fn(tr, st['v'])
+            ev(name, idx, 'ok')
         elif op == 'bools':
             # boolean value of conditions right now (no suspension): c, ~~c, and De Morgan forms
             res = []
